@@ -37,6 +37,49 @@ PROPS = {
     },
 }
 
+
+BOUNDED_NOTE = ('Bounded contract replay: the executable form of the contract is evaluated on the real compiled crate for every case of a stated finite '
+                'space with an exact rational oracle (Fourier-Motzkin, i128 rationals). Labelled bounded; NOT a proof and never counted as one.')
+ASSUME_BC = [
+    'bounded: only the stated finite case space is covered (see coverage.bounded[].bound)',
+    'oracle arithmetic is exact (i128 rationals); generated data are small dyadic rationals so the library\'s f64 arithmetic is exact on them',
+    'LP answers of minilp are taken as the library sees them; where a contract needs ground truth the exact Fourier-Motzkin oracle is used instead',
+]
+
+
+def bounded(pid, cmd, title, classes=None, design='DESIGN.md §4', level='exploration', extra_assume=()):
+    return {
+        'level': level,
+        'units': [],
+        'bounded': [{'args': [cmd], 'classes': classes}],
+        'technique': f'bounded contract replay (bc {cmd}) on the real crate with an exact rational oracle; no deductive claim',
+        'level_text': title + ' ' + BOUNDED_NOTE,
+        'design_ref': design,
+        'assumptions': ASSUME_BC + list(extra_assume),
+    }
+
+
+PROPS.update({
+    'C01': bounded('C01', 'distill', 'End-to-end distillation of small networks compared with the exact network function on a lattice (breakpoints and ties included).'),
+    'C02': bounded('C02', 'compose', 'compose::<false,_> / apply_func: h(x)==g(f(x)) incl. undefinedness, right operand unchanged, nodes of f keep their index, for K in {2,4}.'),
+    'C03': bounded('C03', 'prune', 'infeasible_elimination and pruned composition preserve the (partial) function; differences tolerated only on regions without interior.', classes=['function', 'panic', 'wf', 'law', 'nonfinite']),
+    'C04': bounded('C04', 'histories', 'Operation histories from every constructor keep the tree well-formed (aff_wf) and panic-free.'),
+    'C05': bounded('C05', 'prune', 'Cached witnesses satisfy their path conditions within 1e-8, infeasible marks only on regions without interior, mirror_points results lie in the polytope.', classes=['cache', 'mirror']),
+    'C06': bounded('C06', 'prune', 'After elimination of a total tree: no empty-region node, no single-branch decision below the root, second run changes nothing.', classes=['effective', 'idempotent']),
+    'C07': bounded('C07', 'ops', 'Tree arithmetic (+,-,*,/, neg, mixed tree/affine forms, all ownership variants) is the point-wise lifting of coefficient-wise affine arithmetic.'),
+    'C08': bounded('C08', 'reduce', 'reduce preserves the function exactly, never grows, is idempotent, leaves no decision with two equal terminal children and keeps decisions with differing children.'),
+    'C09': bounded('C09', 'regions', 'polyhedra()/polyhedra_iter() streams, find_terminal/evaluate and path_to_node agree; regions partition the domain; all skip_subtree positions.'),
+    'C11': bounded('C11', 'faults', 'Every single LP fault (Error, Unbounded, displaced witness) at every call position of elimination / pruned composition: no panic, same function, sound caches, only less pruning.', level='fault_enumeration', extra_assume=['uses the cfg(affinitree_verif) fault plan hook at the top of Polytope::solve_linprog']),
+    'C13': bounded('C13', 'traversal', 'DfsPre/DfsEdge/Bfs streams, size_hint brackets, every skip_subtree position (also repeated), index-order iterators and tree metrics vs a reference computed from the arena view.'),
+    'C14': bounded('C14', 'poly', 'Polytope operations and constructors: exact membership of results vs pre-images on the lattice; contains/distance vs exact.'),
+    'C15': bounded('C15', 'cleanup', 'Row clean-ups keep the point set (exact two-way inclusion), only drop rows, and leave no row implied with a margin.'),
+    'C16': bounded('C16', 'aff', 'Affine algebra, conversions and named constructors vs exact evaluation of the defining identities.'),
+    'C17': bounded('C17', 'schema', 'Schema trees vs textbook definitions on the lattice (every breakpoint and tie).'),
+    'C18': bounded('C18', 'arch', 'Architecture builder call sequences vs a shadow shape model, distillation of accepted architectures and of their splits, npz layer-file round trips.'),
+})
+PROPS['C12']['bounded'] = [{'args': ['tree-ops'], 'classes': None}]
+PROPS['C12']['replay_search'] = ['tree-ops']
+
 NOT_APPLICABLE = {
     'C10': 'correctness of the external LP solver (minilp simplex) seen through a 20-line adapter: no contract within reach can decide it; a contract on solve_linprog would have to be assumed',
     'C19': 'fmt::Formatter / string output: Verus has no model of core::fmt output or str contents; deciding it means parsing output back, which is testing, not contract verification',
